@@ -15,6 +15,7 @@ from .values import *
 from .core import *
 
 SEP = ' \t'
+LITERAL_TOKENS = {'<': 3, '>': 4}          # token kinds beyond the reader's table (0 plain, 1 open, 2 close): the brackets of the profile line
 
 
 def empty_text():
@@ -28,9 +29,26 @@ def _token(buf):
     if len(buf) == 2 and buf[1] == ')' and isinstance(buf[0], tuple): return Tok.mk(2, buf[0][1])
     if all(isinstance(c, str) for c in buf):
         s = ''.join(buf)
+        if s in LITERAL_TOKENS: return Tok.mk(LITERAL_TOKENS[s], 0)
         for k, body in ((0, s), (1, s[1:] if s[:1] == '(' else None), (2, s[:-1] if s[-1:] == ')' else None)):
             if body is not None and body.isdigit() and (body == '0' or body[0] != '0'): return Tok.mk(k, int(body))
     raise Undecided('written characters %r match no token shape of the file format' % (buf,))
+
+
+def line_tokens_append(ex, cur, r, p, line, in_loop=False):
+    """A local declared 'linetoks': one line under construction, seen as its blank-separated tokens (no line break, no opaque piece)."""
+    lines, tail = tokenise(ex, VStr(list(r.atoms) + ['\n']))
+    if tail or len(lines) != 1: raise Undecided('a line of tokens is appended to in pieces of one line')
+    segs, colon = lines[0]
+    if colon: raise Undecided('a colon inside a token line')
+    if isinstance(cur, VClosedToks): raise Undecided('a piece is appended directly after a token that was not followed by a separator')
+    ends_sep = bool(r.atoms) and isinstance(r.atoms[-1], str) and r.atoms[-1][-1] in SEP
+    if not ends_sep and in_loop: raise Undecided('inside a loop every piece of a token line must end with a separator (the next piece would run into its last token)')
+    out = cur
+    for sg in segs:
+        if sg[0] != 'tok': raise Undecided('a joined list inside a token line')
+        out = VList(out.len + 1, z3.Store(out.arr, out.len, sg[1]), 'tok')
+    return out if ends_sep else VClosedToks(out.len, out.arr, 'tok')
 
 
 def tokenise(ex, v):
